@@ -63,7 +63,6 @@ UNITS = {
                                               "C16_dna_foreign_source"]},
     },
     "coder": {
-        "enabled": False,                      # switched on once every proof file of the unit is complete
         "functions": translate_minipy.CODER_FUNCS,
         "generate": lambda repo, d: (translate_minipy.generate(repo, os.path.join(d, "OperationGen.v")),
                                      translate_minipy.generate_coder(repo, os.path.join(d, "CoderGen.v"))),
@@ -76,8 +75,16 @@ UNITS = {
                    ["CoderGenProofs.v"]],
         "deps": ["Py.v", "Bignum.v", "Convert.v", "Kmer.v", "Coder.v", "Spec.v", "CoderSpec.v", "FastSpec.v", "MiniPy.v", "MiniPyEnc.v",
                  "Proofs/MiniPyLemmas.v", "Proofs/BignumProofs.v", "Proofs/ConvertProofs.v", "Proofs/CoderProofs.v",
-                 "Proofs/ComposeProofs.v", "Proofs/VTProofs.v"],
-        "theorems": {},
+                 "Proofs/ComposeProofs.v", "Proofs/VTProofs.v", "Proofs/WalkProofs.v", "Proofs/ShuffleProofs.v", "Proofs/KmerProofs.v",
+                 "Graph.v", "GraphSpec.v"],
+        "theorems": {"SetVtGenProofs.v": ["set_vt_gen"],
+                     "EncodeNormalGenProofs.v": ["encode_normal_gen_ok", "encode_normal_gen_raise"],
+                     "EncodeFastGenProofs.v": ["encode_fast_gen_ok", "encode_fast_gen_raise"],
+                     "DecodeNormalGenProofs.v": ["decode_normal_gen_ok", "decode_normal_gen_raise"],
+                     "DecodeFastGenProofs.v": ["decode_fast_gen_ok", "decode_fast_gen_raise"],
+                     "CoderGenProofs.v": ["coder_callees_ok", "py2_set_vt", "py2_encode_ok", "py2_encode_raise", "py2_decode_ok",
+                                          "py2_decode_raise", "C07_set_vt_source", "C07_foreign_source", "C06_normal_reject_source",
+                                          "C06_normal_accept_source", "C01_normal_source", "C01_fast_source"]},
     },
     "biofilter": {
         "functions": translate_minipy.BIOFILTER_FUNCS,
@@ -225,8 +232,8 @@ def run_unit(name, repo, use_cache=True, keep=None):
                     out["failed_file"] = f
                     return out
         out.update(proved=True, closed=closed, seconds=round(time.time() - t0, 1))
-        if name in ("operation", "biofilter"):
-            sem = (semantics_check if name == "operation" else semantics_check_filter)(
+        if name in ("operation", "biofilter", "coder"):
+            sem = {"operation": semantics_check, "biofilter": semantics_check_filter, "coder": semantics_check_coder}[name](
                 work, repo, int(os.environ.get("VERIF_SEED", "0") or 0))
             out["minipy_semantics_vs_cpython"] = sem
             if sem.get("error") or sem.get("disagreements") or not sem.get("compared"):
@@ -364,6 +371,131 @@ def semantics_check(work, repo, seed=0, n=260):
             res["fuel"] += 1
             continue
         res["compared"] += 1
+        res["per_function"][f] = res["per_function"].get(f, 0) + 1
+        if g != w and len(res["disagreements"]) < 5:
+            res["disagreements"].append({"function": f, "args": args, "minipy": g[:40], "cpython": w[:40]})
+    return res
+
+
+def _coq_aval(v):
+    """JSON-able argument -> MiniPy value; {"arr": [...]} is a 1-D NumPy array, {"arr2": [[...]]} a 2-D one"""
+    if isinstance(v, dict) and "arr" in v:
+        return "(VArr [%s])" % "; ".join("(VInt (%d))" % x for x in v["arr"])
+    if isinstance(v, dict) and "arr2" in v:
+        return "(VArr [%s])" % "; ".join("(VArr [%s])" % "; ".join("(VInt (%d))" % x for x in row) for row in v["arr2"])
+    return _coq_val(v)
+
+
+def semantics_check_coder(work, repo, seed=0, n=160):
+    """set_vt / encode / decode of dsw/spiderweb.py: MiniPy interpreter (vm_compute) against CPython + NumPy"""
+    import random
+    sys.path.insert(0, HERE)
+    rng = random.Random(1000003 * seed + 41)
+    NUC = "ACGT"
+    cases = []
+    for _ in range(n):
+        k = rng.choice([1, 1, 2])
+        nn = 4 ** k
+        keep = rng.choice([0.5, 0.75, 1.0])
+        rows = [[(4 * v + j) % nn if rng.random() < keep else -1 for j in range(4)] for v in range(nn)]
+        live = [v for v in range(nn) if any(x >= 0 for x in rows[v])] or [0]
+        v0 = rng.choice(live) if rng.random() < 0.9 else rng.randrange(nn)
+        table = None
+        if rng.random() < 0.4:
+            table = [rng.sample(range(4), 4) for _ in range(nn)]
+        f = rng.choice(["encode", "encode", "decode", "decode", "set_vt"])
+        fast = rng.random() < 0.4
+        if f == "set_vt":
+            sdna = "".join(rng.choice(NUC) for _ in range(rng.randint(0, 14)))
+            if rng.random() < 0.15:
+                sdna += rng.choice("Nx")
+            cases.append(("set_vt", [sdna, rng.choice([1, 2, 3, 5, 33])]))
+        elif f == "encode":
+            bits = [rng.randint(0, 1) for _ in range(rng.randint(0, 14))]
+            cases.append(("encode", [{"arr": bits}, {"arr2": rows}, v0, fast, rng.choice([0, 0, 2, 4]),
+                                     None if table is None else {"arr2": table}, False, rng.random() < 0.3]))
+        else:
+            # a walk (sometimes corrupted) from v0
+            w, v = "", v0
+            for _s in range(rng.randint(0, 10)):
+                js = [j for j in range(4) if rows[v][j] >= 0]
+                if not js:
+                    break
+                j = rng.choice(js)
+                w += NUC[j]
+                v = rows[v][j]
+            if rng.random() < 0.25 and w:
+                i = rng.randrange(len(w))
+                w = w[:i] + rng.choice("ACGTN") + w[i + 1:]
+            cases.append(("decode", [w, rng.randint(0, 16), {"arr2": rows}, v0, fast,
+                                     rng.choice([None, None, "A", "TA", "GCA"]), None if table is None else {"arr2": table},
+                                     False]))
+    lines = ["From DSW Require Import MiniPy MiniPyEnc.", "From DSWGen Require Import OperationGen CoderGen.", "Open Scope Z_scope."]
+    for f, args in cases:
+        lines.append('Eval vm_compute in enc_res (call_in coder_module 400 "%s"%%string [%s]).'
+                     % (f, "; ".join(_coq_aval(a) for a in args)))
+    open(os.path.join(work, "SemCasesCoder.v"), "w").write("\n".join(lines) + "\n")
+    rc, log = _compile(work, "SemCasesCoder.v")
+    if rc != 0:
+        return {"cases": len(cases), "compared": 0, "error": log[-600:]}
+    got = [[int(x) for x in re.findall(r"-?\d+", blk.split(": list Z")[0])] for blk in log.split("= ")[1:]]
+    if len(got) != len(cases):
+        return {"cases": len(cases), "compared": 0, "error": "parsed %d answers for %d cases" % (len(got), len(cases))}
+    prog = ("import sys, json, io, contextlib\nsys.path.insert(0, %r)\nimport numpy as np\nimport dsw\n"
+            "EX = {ValueError: 1, IndexError: 2, TypeError: 3, OverflowError: 4, KeyError: 5}\n"
+            "def conv(a):\n"
+            "    if isinstance(a, dict):\n"
+            "        return np.array(a.get('arr', a.get('arr2')), dtype=int).reshape((-1, 4)) if 'arr2' in a else np.array(a['arr'], dtype=int)\n"
+            "    return a\n"
+            "def enc(v):\n"
+            "    if isinstance(v, np.ndarray):\n"
+            "        out = [7, len(v)]\n"
+            "        for x in v: out += enc(x)\n"
+            "        return out\n"
+            "    if isinstance(v, (bool, np.bool_)): return [5, int(v)]\n"
+            "    if isinstance(v, (int, np.integer)): return [0, int(v)]\n"
+            "    if isinstance(v, str): return [1, len(v)] + [ord(c) for c in v]\n"
+            "    if isinstance(v, (list, tuple)):\n"
+            "        out = [2 if isinstance(v, list) else 3, len(v)]\n"
+            "        for x in v: out += enc(x)\n"
+            "        return out\n"
+            "    return [4] if v is None else [99]\n"
+            "import signal\n"
+            "class Slow(BaseException): pass\n"
+            "def alarm(*a): raise Slow()\n"
+            "signal.signal(signal.SIGALRM, alarm)\n"
+            "out = []\n"
+            "for f, a in json.load(sys.stdin):\n"
+            "    try:\n"
+            "        signal.alarm(3)\n"
+            "        with contextlib.redirect_stdout(io.StringIO()):\n"
+            "            r = getattr(dsw, f)(*[conv(x) for x in a])\n"
+            "        signal.alarm(0)\n"
+            "        out.append([0] + enc(r))\n"
+            "    except Slow:\n"
+            "        out.append([2])          # does not return (encode on a graph that is not well formed: C04's domain)\n"
+            "    except Exception as e:\n"
+            "        signal.alarm(0)\n"
+            "        out.append([1, EX.get(type(e), 6)])\n"
+            "print(json.dumps(out))\n" % (repo,))
+    p = subprocess.run(["/venv/bin/python", "-c", prog], input=json.dumps(cases), stdout=subprocess.PIPE, stderr=subprocess.PIPE,
+                       universal_newlines=True, env=dict(os.environ, PYTHONHASHSEED="0"))
+    if p.returncode != 0:
+        return {"cases": len(cases), "compared": 0, "error": p.stderr[-600:]}
+    want = json.loads(p.stdout)
+    res = {"cases": len(cases), "compared": 0, "stuck": 0, "fuel": 0, "disagreements": [], "per_function": {}, "raised": 0}
+    for (f, args), g, w in zip(cases, got, want):
+        if g[:1] == [3]:
+            res["stuck"] += 1
+            continue
+        if g[:1] == [2] or w == [2]:
+            res["fuel"] += 1                        # no result within the budget on at least one side
+            if g[:1] != [2] or w != [2]:
+                res.setdefault("fuel_mismatch", 0)
+                res["fuel_mismatch"] += 1
+            continue
+        res["compared"] += 1
+        res["raised"] += int(w[:1] == [1])
         res["per_function"][f] = res["per_function"].get(f, 0) + 1
         if g != w and len(res["disagreements"]) < 5:
             res["disagreements"].append({"function": f, "args": args, "minipy": g[:40], "cpython": w[:40]})
